@@ -25,6 +25,9 @@ type ConcurrentConfig struct {
 	// RawPaths: after each client call the goroutine also hands one raw GET of these paths (unrouted paths, the
 	// spec-file route) straight to API.ServeHTTP: requests that match no operation are served concurrently too.
 	RawPaths []string `json:"rawPaths,omitempty"`
+	// Preflights: each goroutine also sends OPTIONS requests to these paths (declared paths of a package generated
+	// with CORS on, CORSHandler installed): concurrent preflights, among them the first ones for their path
+	Preflights []string `json:"preflights,omitempty"`
 }
 
 // uniqueFill overwrites the leaves of v with values unique to tag (strings, integers, times), so that a
@@ -166,6 +169,9 @@ func RunConcurrent(reg Registry, rec *Recorder, g Group) {
 			if len(cfg.RawPaths) > 0 {
 				ids = append(ids, id+"x")
 			}
+			if len(cfg.Preflights) > 0 {
+				ids = append(ids, id+"p")
+			}
 			js = append(js, job{id: id, tag: cfg.Round*100000 + n, c: callable[r.Intn(len(callable))]})
 		}
 		jobs = append(jobs, js)
@@ -239,6 +245,28 @@ func RunConcurrent(reg Registry, rec *Recorder, g Group) {
 						raw["status"], raw["writes"], raw["bodyLen"] = st, cw.writes, cw.body.Len()
 					}()
 					rec.Emit(raw)
+				}
+				if len(cfg.Preflights) > 0 {
+					path := cfg.Preflights[j.tag%len(cfg.Preflights)]
+					pre := Event{"ev": "Raw", "case": j.id + "p", "path": path, "pre": true, "panic": ""}
+					func() {
+						defer func() {
+							if p := recover(); p != nil {
+								pre["panic"] = fmt.Sprintf("%v", p)
+							}
+						}()
+						cw := &countingWriter{hdr: http.Header{}}
+						rctx := context.WithValue(context.Background(), keyCase, &caseCtx{id: j.id + "p"})
+						rq := (&http.Request{Method: "OPTIONS", URL: &url.URL{Path: path}, Proto: "HTTP/1.1", ProtoMajor: 1, ProtoMinor: 1, Header: http.Header{"Origin": {"https://example.test"}, "Access-Control-Request-Method": {"GET"}}, Body: http.NoBody, Host: "example.test"}).WithContext(rctx)
+						runtime.Gosched()
+						api.ServeHTTP(cw, rq)
+						st := cw.status
+						if !cw.wrote {
+							st = 200
+						}
+						pre["status"], pre["writes"], pre["bodyLen"] = st, cw.writes, cw.body.Len()
+					}()
+					rec.Emit(pre)
 				}
 			}
 		}(jobs[gi])
